@@ -927,7 +927,7 @@ func (fs *fileStore) iterate(outFields []core.Field, ms *memstore, okayToReuseBu
 	// Read remaining stuff from memstore
 	if ms != nil {
 		offsetsBySource = offsetsBySource.Advance(ms.offsetsBySource)
-		ms.tree.Walk(ctx, func(key []byte, msColumns []encoding.Sequence) (bool, bool, error) {
+		walkErr := ms.tree.Walk(ctx, func(key []byte, msColumns []encoding.Sequence) (bool, bool, error) {
 			columns := make([]encoding.Sequence, len(outFields))
 			for i, msColumn := range msColumns {
 				memToOut(columns, i, msColumn)
@@ -935,6 +935,11 @@ func (fs *fileStore) iterate(outFields []core.Field, ms *memstore, okayToReuseBu
 			more, err := onRow(bytemap.ByteMap(key), columns, nil)
 			return more, false, err
 		})
+		if walkErr != nil {
+			// an error (e.g. deadline exceeded) while delivering memstore rows means
+			// the result is incomplete, the caller has to be told
+			return offsetsBySource, walkErr
+		}
 	}
 
 	return offsetsBySource, nil
